@@ -121,7 +121,12 @@ func genPath(plugin string, k int, core, taken []string) string {
 
 // unclean returns a different spelling of the same file.
 func unclean(p string) string {
-	switch simrt.Choice("c17.unclean", 3) {
+	switch simrt.Choice("c17.unclean", 4) {
+	case 3:
+		if !strings.HasPrefix(p, "/") {
+			return "/" + p // absolute spelling: joined with the output directory it is the same file
+		}
+		return "./" + p
 	case 0:
 		return "./" + p
 	case 1:
